@@ -312,3 +312,47 @@ Example C04_tool_example :
   = Stream.Done (Stream.mkC 2 1 0 1 0)
       [([x61; x2f; x62], [x69; x65; x6c; x6c; x6f; x20; x77; x6f; x72; x6c; x64; x21; x0a; x00; xff; x31; x32])] 1.
 Proof. vm_compute. reflexivity. Qed.
+
+(* ------------------------------------------------------------------ *)
+(* The block clause of C04 in full at TOOL level (Proofs/C04Radius.v): arbitrary ecc file, arbitrary tree, an ARBITRARY third-party
+   decoder `inner` (only the lengths of its answers are assumed) behind the facade wrapper that ECCMan.decode is for every codec
+   since fix 90b3a68.  Every file left in the output folder is an existing input file in which each assembled block is the input
+   block, or a value matching the stored hash, or the message of a codeword within 2*errors + erasures <= mb - k of the received
+   block + stored parity; the rest of the file is untouched. *)
+From PFF Require Proofs.C04Radius.
+
+Theorem C04_tool_radius_header_rs :
+  forall (algo : N) (mb : nat), mb <= 255 -> forall hash inner,
+  (forall k r E mr er_, inner k r E = Some (mr, er_) -> length mr = k /\ length er_ <= mb - k) ->
+  forall (o : option byte) fast hlen ms hdr, ms <= mb ->
+  forall marker delim ignore_size look intra db c outs ex p b,
+  Stream.run_h marker delim ignore_size look intra
+     (C03Inst.blocksH_pipe algo mb hash hlen (C04Radius.wdec mb inner) o fast ms hdr) db = Stream.Done c outs ex ->
+  In (p, b) outs ->
+  exists file tr recorded (res : list (list byte * verdict)) rest, look p = Some file /\
+    let bl := hdr_blocks ms mb hlen hdr recorded file tr in
+    file = concat (map msg bl) ++ rest /\ b = concat (map fst res) ++ rest /\
+    Forall2 (fun blk r => C04Radius.radius_ok algo mb hash o blk (fst r)) bl res.
+Proof.
+  intros algo mb Hmb hash inner IL o fast hlen ms hdr Hms.
+  exact (C04Radius.tool_radius_header algo mb Hmb hash inner IL o fast hlen ms hdr Hms).
+Qed.
+Print Assumptions C04_tool_radius_header_rs.
+
+Theorem C04_tool_radius_whole_rs :
+  forall (algo : N) (mb : nat), mb <= 255 -> forall hash inner,
+  (forall k r E mr er_, inner k r E = Some (mr, er_) -> length mr = k /\ length er_ <= mb - k) ->
+  forall (o : option byte) fast hlen (mu : nat -> nat -> nat), (forall s c, mu s c <= mb) -> forall window,
+  forall marker delim ignore_size look intra db c outs ex p b,
+  Stream.run_w marker delim ignore_size look intra window
+     (C03Inst.blocksW_pipe algo mb hash hlen (C04Radius.wdec mb inner) o fast mu) db = Stream.Done c outs ex ->
+  In (p, b) outs ->
+  exists file t e recorded (res : list (list byte * verdict)) rest, look p = Some file /\
+    let bl := sa_blocks (mu recorded) mb hlen file (skipn t db) (e - t) in
+    file = concat (map msg bl) ++ rest /\ b = concat (map fst res) ++ rest /\
+    Forall2 (fun blk r => C04Radius.radius_ok algo mb hash o blk (fst r)) bl res.
+Proof.
+  intros algo mb Hmb hash inner IL o fast hlen mu Hmu window.
+  exact (C04Radius.tool_radius_whole algo mb Hmb hash inner IL o fast hlen mu Hmu window).
+Qed.
+Print Assumptions C04_tool_radius_whole_rs.
